@@ -528,16 +528,47 @@ def _signatures(trees):
                                 (sub, not static))
     out = {}
     for name, lst in seen.items():
-        if len(lst) != 1 or name.startswith('__') or _is_test_name(name):
+        if name.startswith('__') or _is_test_name(name):
             continue
-        fn, is_method = lst[0]
-        a = fn.args
-        if a.vararg or a.kwarg or a.posonlyargs:
+        sigs = set()
+        bad = False
+        for fn, is_method in lst:
+            a = fn.args
+            if a.vararg or a.kwarg or a.posonlyargs:
+                bad = True
+                break
+            params = [x.arg for x in a.args]
+            if is_method:
+                params = params[1:]
+            sigs.add((tuple(params), is_method, fn.name == '__init__'))
+        # one definition, or several that agree on the whole signature
+        if bad or len(sigs) != 1:
             continue
-        params = [x.arg for x in a.args]
-        if is_method:
-            params = params[1:]
-        out[name] = (params, is_method, fn.name == '__init__')
+        params, is_method, is_ctor = next(iter(sigs))
+        out[name] = (list(params), is_method, is_ctor)
+    return out
+
+
+def _class_signatures(trees):
+    """{class name: {method name: parameter names after self}} for the
+    methods a class defines itself (used for ``self.m(...)`` calls whose
+    bare name is ambiguous across classes)."""
+    out = {}
+    for tree in trees.values():
+        for node in tree.body:
+            if not isinstance(node, ast.ClassDef):
+                continue
+            ms = {}
+            for sub in node.body:
+                if isinstance(sub, ast.FunctionDef):
+                    a = sub.args
+                    if a.vararg or a.kwarg or a.posonlyargs or any(
+                            isinstance(d, ast.Name) and d.id in (
+                                'staticmethod', 'classmethod', 'property')
+                            for d in sub.decorator_list):
+                        continue
+                    ms[sub.name] = [x.arg for x in a.args][1:]
+            out.setdefault(node.name, {}).update(ms)
     return out
 
 
@@ -545,8 +576,16 @@ def keywords_to_positional(trees):
     """``f(a, c=x)`` -> ``f(a, x)`` wherever the callee is known by a unique
     name and the keyword names the next positional parameter."""
     sigs = _signatures(trees)
+    csigs = _class_signatures(trees)
     n = 0
     for tree in trees.values():
+        # which class (if any) a call sits in
+        owner = {}
+        for node in tree.body:
+            if isinstance(node, ast.ClassDef):
+                for m in ast.walk(node):
+                    if isinstance(m, ast.Call):
+                        owner[id(m)] = node.name
         for call in ast.walk(tree):
             if not isinstance(call, ast.Call) or not call.keywords:
                 continue
@@ -557,6 +596,12 @@ def keywords_to_positional(trees):
             else:
                 continue
             sig = sigs.get(name)
+            if not sig and via_attr and isinstance(
+                    call.func.value, ast.Name) and \
+                    call.func.value.id == 'self':
+                own = csigs.get(owner.get(id(call)), {})
+                if name in own:
+                    sig = (own[name], True, False)
             if not sig:
                 continue
             params, is_method, is_ctor = sig
@@ -629,11 +674,13 @@ def canonicalise(trees):
         keywords_to_positional, key_loops_to_items,
         loop_element_unpacking, append_loops_to_comprehensions,
         expand_update_displays, comprehension_key_loops,
-        propagate_pure_aliases, ifexp_statements, split_parallel_copies,
-        sink_branch_temps, thread_none_tests, unnegate_ifs,
+        index_reads_to_unpacking, propagate_pure_aliases, ifexp_statements,
+        split_parallel_copies, sink_branch_temps, thread_none_tests,
+        or_assignments, unroll_literal_loops, unnegate_ifs,
         inline_single_use_temps,
     ]
     total = {}
+    _SCOPES.clear()
     for _round in range(4):
         changed = 0
         for p in passes:
@@ -642,6 +689,7 @@ def canonicalise(trees):
             changed += k
         if not changed:
             break
+    _SCOPES.clear()
     return total
 
 
@@ -662,10 +710,19 @@ def unnegate_ifs(trees):
     return n
 
 
+_SCOPES = {}
+
+
 def _fn_scopes(tree):
-    for n in ast.walk(tree):
-        if isinstance(n, (ast.FunctionDef, ast.AsyncFunctionDef)):
-            yield n
+    """Function definitions of a module (cached per tree: the passes never
+    add or remove function definitions)."""
+    k = id(tree)
+    hit = _SCOPES.get(k)
+    if hit is None or hit[0] is not tree:
+        hit = (tree, [n for n in ast.walk(tree) if isinstance(
+            n, (ast.FunctionDef, ast.AsyncFunctionDef))])
+        _SCOPES[k] = hit
+    return hit[1]
 
 
 def _blocks(fn):
@@ -713,10 +770,25 @@ def _header_exprs(st):
 
 def inline_single_use_temps(trees):
     """``t = e`` immediately followed by the only statement that reads ``t``
-    (once, outside lambdas and comprehensions) -> ``e`` in place of ``t``."""
+    (once, outside lambdas and comprehensions) -> ``e`` in place of ``t``;
+    ``t = e; return t`` -> ``return e`` whatever else is called t."""
     total = 0
     for tree in trees.values():
         for fn in _fn_scopes(tree):
+            for blk in _blocks(fn):
+                i = 0
+                while i + 1 < len(blk):
+                    s, nxt = blk[i], blk[i + 1]
+                    i += 1
+                    if isinstance(s, ast.Assign) and len(s.targets) == 1 \
+                            and isinstance(s.targets[0], ast.Name) and \
+                            isinstance(nxt, ast.Return) and isinstance(
+                                nxt.value, ast.Name) and \
+                            nxt.value.id == s.targets[0].id:
+                        nxt.value = s.value
+                        blk.remove(s)
+                        i -= 1
+                        total += 1
             params = {a.arg for a in fn.args.args + fn.args.kwonlyargs
                       + fn.args.posonlyargs}
             if fn.args.vararg:
@@ -1492,4 +1564,131 @@ def append_loops_to_comprehensions(trees):
                         blk[i - 1:i + 1] = [new]
                         i -= 1
                         n += 1
+    return n
+
+
+def or_assignments(trees):
+    """``if not x: x = e`` (no else) -> ``x = x or e``."""
+    n = 0
+    for tree in trees.values():
+        for fn in _fn_scopes(tree):
+            for blk in _blocks(fn):
+                for k, st in enumerate(list(blk)):
+                    if not (isinstance(st, ast.If) and not st.orelse and
+                            len(st.body) == 1 and
+                            isinstance(st.test, ast.UnaryOp) and
+                            isinstance(st.test.op, ast.Not) and
+                            isinstance(st.test.operand, ast.Name)):
+                        continue
+                    a = st.body[0]
+                    x = st.test.operand.id
+                    if not (isinstance(a, ast.Assign) and len(a.targets) == 1
+                            and isinstance(a.targets[0], ast.Name)
+                            and a.targets[0].id == x):
+                        continue
+                    new = ast.Assign(
+                        targets=[ast.Name(id=x, ctx=ast.Store())],
+                        value=ast.BoolOp(op=ast.Or(), values=[
+                            ast.Name(id=x, ctx=ast.Load()), a.value]),
+                        type_comment=None)
+                    ast.copy_location(new, st)
+                    ast.fix_missing_locations(new)
+                    blk[blk.index(st)] = new
+                    n += 1
+    return n
+
+
+def index_reads_to_unpacking(trees):
+    """``t = f(..); a = t[0]; b = t[1]`` (t read nowhere else) ->
+    ``a, b = f(..)``."""
+    n = 0
+    for tree in trees.values():
+        for fn in _fn_scopes(tree):
+            counts = {}
+            for m in ast.walk(fn):
+                if isinstance(m, ast.Name):
+                    counts.setdefault(m.id, [0, 0])[
+                        0 if isinstance(m.ctx, ast.Load) else 1] += 1
+            for blk in _blocks(fn):
+                i = 0
+                while i < len(blk):
+                    st = blk[i]
+                    i += 1
+                    if not (isinstance(st, ast.Assign) and
+                            len(st.targets) == 1 and
+                            isinstance(st.targets[0], ast.Name) and
+                            isinstance(st.value, ast.Call)):
+                        continue
+                    t = st.targets[0].id
+                    if counts.get(t, [0, 0])[1] != 1:
+                        continue
+                    j = blk.index(st) + 1
+                    got = []
+                    while j < len(blk):
+                        s2 = blk[j]
+                        if isinstance(s2, ast.Assign) and \
+                                len(s2.targets) == 1 and isinstance(
+                                    s2.targets[0], ast.Name) and \
+                                isinstance(s2.value, ast.Subscript) and \
+                                isinstance(s2.value.value, ast.Name) and \
+                                s2.value.value.id == t and isinstance(
+                                    s2.value.slice, ast.Constant) and \
+                                s2.value.slice.value == len(got):
+                            got.append(s2)
+                            j += 1
+                        else:
+                            break
+                    if len(got) < 2 or counts[t][0] != len(got):
+                        continue
+                    names = [g.targets[0].id for g in got]
+                    if len(set(names)) != len(names) or t in names:
+                        continue
+                    st.targets = [ast.copy_location(ast.Tuple(
+                        elts=[ast.Name(id=x, ctx=ast.Store())
+                              for x in names], ctx=ast.Store()),
+                        st.targets[0])]
+                    ast.fix_missing_locations(st)
+                    for g in got:
+                        blk.remove(g)
+                    n += 1
+    return n
+
+
+def unroll_literal_loops(trees):
+    """``for x in (A, B): body`` over a literal tuple/list of at most four
+    simple expressions, body without break/continue and without re-binding
+    x -> body[x:=A]; body[x:=B]."""
+    n = 0
+    for tree in trees.values():
+        for fn in _fn_scopes(tree):
+            for blk in _blocks(fn):
+                for st in list(blk):
+                    if not (isinstance(st, ast.For) and not st.orelse and
+                            isinstance(st.target, ast.Name) and
+                            isinstance(st.iter, (ast.Tuple, ast.List)) and
+                            1 <= len(st.iter.elts) <= 4 and
+                            all(_simple(e) for e in st.iter.elts)):
+                        continue
+                    x = st.target.id
+                    inner = [m for b in st.body for m in ast.walk(b)]
+                    if any(isinstance(m, (ast.Break, ast.Continue,
+                                          ast.Lambda, ast.FunctionDef))
+                           for m in inner):
+                        continue
+                    if any(isinstance(m, ast.Name) and m.id == x and
+                           not isinstance(m.ctx, ast.Load) for m in inner):
+                        continue
+                    after = sum(1 for m in ast.walk(fn)
+                                if isinstance(m, ast.Name) and m.id == x) \
+                        - sum(1 for m in inner if isinstance(m, ast.Name)
+                              and m.id == x) - 1
+                    if after > 0:
+                        continue
+                    new = []
+                    for e in st.iter.elts:
+                        sub = _Subst({x: e}, {})
+                        new += [sub.visit(copy.deepcopy(b)) for b in st.body]
+                    k = blk.index(st)
+                    blk[k:k + 1] = new
+                    n += 1
     return n
